@@ -1316,13 +1316,15 @@ pub fn lane_script_exit(seed: u64) -> Vec<Scenario> {
 pub fn lane_early_exit(seed: u64) -> Vec<Scenario> {
     let mut out = vec![];
     let mut g = G::new(seed ^ 0xea71);
-    for script in [false] {
+    for (script, close_stdin) in [(false, false), (false, true)] {
         for kib in [1usize, 8, 30, 63, 64, 65, 71, 128, 205, 1024] {
             for cap in [65536usize, 4096] {
                 let mut sim = base_sim(g.rng.next_u64());
                 sim.swarm.pipe_capacity = cap;
                 let nonce = g.nonce();
-                sim.programs.insert(nonce.clone(), vec![Op::ExitShell { code: 3 }]);
+                // (the second family: the shell closes its standard input - `exec <&-` - and runs
+                // on for five seconds under a limit of two: it is alive, only not reading)
+                sim.programs.insert(nonce.clone(), if close_stdin { vec![Op::CloseStdin, Op::Sleep { ns: 5 * SEC }, Op::Status { code: 3 }] } else { vec![Op::ExitShell { code: 3 }] });
                 let mut expr = format!("vsim-cmd @vs:{}@ exit 3 @ve:{}@\n", nonce, nonce);
                 let filler_line = ": filler filler filler filler filler filler filler filler filler filler\n";
                 while expr.len() < kib * 1024 {
@@ -1336,10 +1338,10 @@ pub fn lane_early_exit(seed: u64) -> Vec<Scenario> {
                     expected_code: Some(3),
                     expectations: vec![],
                     expect_match: true,
-                    cfg: TestCfg::default(),
+                    cfg: if close_stdin { TestCfg { timeout_ns: Some(2 * SEC), ..Default::default() } } else { TestCfg::default() },
                 };
                 out.push(Scenario {
-                    lane: format!("bytes/early-exit/{}KiB/cap{}", kib, cap),
+                    lane: format!("bytes/{}/{}KiB/cap{}", if close_stdin { "closed-stdin" } else { "early-exit" }, kib, cap),
                     tier: Tier::Lib,
                     script_mode: script,
                     docs: vec![doc("early.md", Format::Md, vec![t])],
